@@ -112,6 +112,42 @@ deriving DecidableEq, Repr
 
 def obs (s : S) (σ : Env) : Obs := let r := run s σ; ⟨r.calls, r.ret, r.stuck⟩
 
+
+/-! ### variables and literals of a term (for the counterexample search of the driver) -/
+
+def E.vars : E → List String
+  | .lit _ => []
+  | .var x => [x]
+  | .add a b | .sub a b | .mul a b | .rem a b | .lt a b | .le a b | .gt a b | .ge a b | .eq a b | .ne a b
+  | .and a b | .or a b | .min a b | .max a b => a.vars ++ b.vars
+  | .not a => a.vars
+
+def E.lits : E → List Int
+  | .lit n => [n]
+  | .var _ => []
+  | .add a b | .sub a b | .mul a b | .rem a b | .lt a b | .le a b | .gt a b | .ge a b | .eq a b | .ne a b
+  | .and a b | .or a b | .min a b | .max a b => a.lits ++ b.lits
+  | .not a => a.lits
+
+/-- every name a run may read: variables of expressions and the inputs call results are read from -/
+def S.vars : S → List String
+  | .skip => []
+  | .seq a b => a.vars ++ b.vars
+  | .assign _ e => e.vars
+  | .call rets _ args => rets.map (·.2) ++ args.flatMap E.vars
+  | .ite c t e => c.vars ++ t.vars ++ e.vars
+  | .ret es => es.flatMap E.vars
+  | .unsupported _ => []
+
+def S.lits : S → List Int
+  | .skip => []
+  | .seq a b => a.lits ++ b.lits
+  | .assign _ e => e.lits
+  | .call _ _ args => args.flatMap E.lits
+  | .ite c t e => c.lits ++ t.lits ++ e.lits
+  | .ret es => es.flatMap E.lits
+  | .unsupported _ => []
+
 /-- evaluate a translated term symbolically: unfold the interpreter; string comparisons of variable names are decided by `simp` -/
 macro "minigo_simp" "[" ts:Lean.Parser.Tactic.simpLemma,* "]" : tactic =>
   `(tactic| simp [run, obs, exec, blk, evalE, R.live, bindRets, b2i, $ts,*])
